@@ -204,6 +204,21 @@ Example C10_nonvacuous :
 Proof. vm_compute. repeat split. Qed.
 Print Assumptions C10_nonvacuous.
 
+(* non-vacuity of C10_no_duplicate_reexpression: the same substitution has one entry per
+   parameter and four re-expressions of the key, pairwise different *)
+Example C10_no_duplicate_nonvacuous :
+  let s := [(pid "0", VType (tC "Vec" [gty (tP "0")])); (pid "1", VType (tC "Vec" [gty (tP "0")]))] in
+  let b := tC "Option" [gty (tC "Vec" [gty (tP "0")])] in
+  let t := path1 "D" (aangle [gty (tC "Vec" [gty (tP "0")])]) in
+  NoDup (map fst s) /\ List.length (subst_key s b t) = 4 /\ NoDup (subst_key s b t).
+Proof.
+  cbv zeta. split; [|split].
+  - repeat constructor; simpl; intuition discriminate.
+  - vm_compute. reflexivity.
+  - apply C10_no_duplicate_reexpression. repeat constructor; simpl; intuition discriminate.
+Qed.
+Print Assumptions C10_no_duplicate_nonvacuous.
+
 (* ===================================================================================== *)
 (* C12 -- dispatch-key identity ignores associated-type bindings and nothing else         *)
 (* ===================================================================================== *)
